@@ -722,8 +722,14 @@ func Run(c *hx.Ctx) error {
 		g.feats = map[string]bool{}
 		g.outOfDomain = false
 		switch k := r.Intn(100); {
-		case k < 60:
+		case k < 52:
 			runExpr(c, g, g.cond(2), false)
+		case k < 57:
+			runCondRewrite(c, g, g.condWithTime(2, g.stableAtom), true)
+		case k < 59:
+			runCondRewrite(c, g, g.condWithTime(2, func() string { return g.unit(1) }), false)
+		case k < 60:
+			runPrep(c, g)
 		case k < 62:
 			runCut(c, g)
 		case k < 68:
